@@ -22,7 +22,9 @@ REGISTRATION = {
             "compared exactly with the real functions of runner/common, with the real ollamarunner loop (NewSequence, "
             "LoadCacheSlot, processBatch, removeSequence, flushPending; scripted model + greedy sampler behind the Server) run "
             "with a prompt reader, with lagging/disconnecting readers (testing/synctest) and with 2-3 sequences per Server, "
-            "and with the real llamarunner.flushPending; the llamarunner loop (needs llama.cpp and a model file) is tied by a "
+            "with the real completion HTTP handler one level up (request JSON as the llm client sends it; the streamed JSON lines "
+            "compared exactly: content chunks and the final object's done_reason / eval_count / prompt_eval_count; theorems "
+            "client_receives, eos_on_last_permitted_token), and with the real llamarunner.flushPending; the llamarunner loop and handler (needs llama.cpp and a model file) is tied by a "
             "go/ast skeleton of its output statements regenerated on every run.",
     "design_ref": "DESIGN.md §5 C14, §6 F7/F20",
     "note": COMMON_NOTE + "Modelled, not verified: what the decode loop does after the client disconnected (the select "
@@ -57,6 +59,8 @@ THEOREMS = [
     "OllamaVerif.C14.c14_streamed_text",
     "OllamaVerif.C14.batch_mates_independent",
     "OllamaVerif.C14.disconnect_prefix",
+    "OllamaVerif.C14.client_receives",
+    "OllamaVerif.C14.eos_on_last_permitted_token",
     "OllamaVerif.C14.F7_first_listed_not_earliest",
     "OllamaVerif.C14.F20_invalid_bytes_dropped",
     "OllamaVerif.C14.F20_reason_not_injective",
@@ -69,6 +73,8 @@ THEOREMS = [
     "OllamaVerif.Stop.runSched_eq_run",
     "OllamaVerif.Stop.truncateStop_shape",
     "OllamaVerif.Stop.run_append",
+    "OllamaVerif.Stop.runN_eq_run",
+    "OllamaVerif.Stop.client_view",
 ]
 # Model variant the oracle is asked to run: 1 = FindStop as pinned in /repo (first listed stop, finding F7),
 # 0 = the repaired FindStop of proposed_fixes/C14-F7.patch.  ONE EDIT when the fix is applied to /repo: set to 0
@@ -84,6 +90,7 @@ OV_OLLAMA = {
     "runner/ollamarunner/zz_verif_c14_test.go": "runner_ollamarunner/zz_verif_c14_test.go",
     "runner/ollamarunner/zz_verif_c14_sched_test.go": "runner_ollamarunner/zz_verif_c14_sched_test.go",
     "runner/ollamarunner/zz_verif_c14_multi_test.go": "runner_ollamarunner/zz_verif_c14_multi_test.go",
+    "runner/ollamarunner/zz_verif_c14_handler_test.go": "runner_ollamarunner/zz_verif_c14_handler_test.go",
 }
 OV_LLAMA = {"runner/llamarunner/zz_verif_c14_test.go": "runner_llamarunner/zz_verif_c14_test.go"}
 
@@ -179,6 +186,16 @@ def run(ctx):
     ctx.l1(outdir, label="L1-multi")
     ctx.classify(ctx.l2(outdir))
 
+    # (2d) one level up: the real `completion` HTTP handler (request JSON in, streamed JSON lines out)
+    env = {"VERIF_N": ctx.scale(1500, 60000), "VERIF_C14_PINNED": PINNED_FINDSTOP}
+    env.update(env_replay)
+    rc, out, outdir = ctx.go_test("./runner/ollamarunner/", OV_OLLAMA, "^TestVerifC14Handler$", env=env, timeout=2400)
+    if rc != 0:
+        ctx.violation("driver-failed", "", out[-1500:], no_input=True)
+    ctx.read_stats(outdir)
+    ctx.l1(outdir, label="L1-handler")
+    ctx.classify(ctx.l2(outdir))
+
     # (3) llamarunner's own copy of flushPending
     if not ctx.replay:
         rc, out, outdir = ctx.go_test("./runner/llamarunner/", OV_LLAMA, "^TestVerifC14LlamaFlush$",
@@ -208,7 +225,9 @@ def run(ctx):
              "EOS anywhere, limits -1..n+2); consumer schedules: scripts of 1..2*cap+40 streamed chunks x readers stalled for "
              "k tokens around/above the channel capacity, until the end, one read per token, bursts, every other token, "
              "disconnect at some token (500 quick / 20 000 thorough); 2-3 sequences per Server x batch sizes 1,2,3,4,512 x join "
-             "times 0..8 x prompt lengths 1..5 (600 / 30 000 cases); distinct = distinct oracle command lines",
+             "times 0..8 x prompt lengths 1..5 (600 / 30 000 cases); completion handler: request JSON x scripts whose terminating "
+             "event (EOS, one-token stop, stop split over 2-3 tokens) is token j with limit j-1, j, j+1, none, far, + the wide loop "
+             "generator, + cancelled requests (1 500 / 60 000 cases); distinct = distinct oracle command lines",
         explanation="Lean theorems about the model of stop.go/flushPending/processBatch's output logic; the model is tied "
                     "to the code by exact comparison with the real functions and the real processBatch loop (L1), by the "
                     "property predicates evaluated on the real loop's output (L2) and by the regenerated go/ast skeleton "
